@@ -51,5 +51,9 @@ def run(rep, tier, seed):
     for system, pm in [("system-w", "rc2"), ("lex_inf", "rc2"), ("c-inference", "rc2")] + ([] if quick else [("system-w", "z3"), ("lex_inf", "z3")]):
         h = hist.BudgetHarness(system, pm, False, 2, 1, 2, [[(1, 0, "q0"), (2, 1, "q1")], [(2, 1, "q1")]], budgets=[dict(inference_timeout=1), dict(inference_timeout=1)], jumps=1, level="L1")
         drive.run_op(rep, h)
+    # parallel evaluation with a (never expiring) per-query budget: the worker path builds its own deadline
+    for system, pm in [("system-z", ""), ("system-w", "rc2"), ("lex_inf", "z3")] + ([] if quick else [("p-entailment", ""), ("system-w", "z3"), ("lex_inf", "rc2"), ("c-inference", "rc2")]):
+        h = hist.BudgetHarness(system, pm, False, 2, 1 if quick else 2, 2, [[(5, 1, "q1"), (0, 0, "q0")]], budgets=[dict(inference_timeout=5)], jumps=0, level="L2", parallel=True)
+        drive.run_op(rep, h)
     rep.assumptions.append("parallel evaluation: multiprocessing stand-in runs each worker on a deep copy of the operator (fork isolation); 'hung after join' is a free decision per worker; real scheduling and signal delivery are outside the claim")
     rep.assumptions.append("bounds: one manager, histories of <=3 calls over <=2 symbolic queries, N=2, M<=2")
